@@ -317,7 +317,7 @@ def prepare(repo, tier, seed):
     dump_path = os.path.join(repo, "src/exec/basejit/verif_u6_dump.rs")
     model = open(os.path.join(HERE, "u6_model.rs.in")).read()
     fns = REPLAY_TMPL.split("use crate::CellType;\n", 1)[1].split("#[test]")[0].replace("VERIF_CEX_TMPS", "").replace("VERIF_CEX_MEMS", "")
-    calls = "\n".join('    replay::<%s>("%s", %s, 0x%x);' % (w, n, ins, live)
+    calls = "\n".join('    println!("U6CPUSTART %s");\n    replay::<%s>("%s", %s, 0x%x);' % (n, w, n, ins, live)
                       for n, w, ins, live, temps, lim, safe, mn, mx, call in cases if "check_arith" in call)
     frame_calls = "\n".join('    dump_frame("%s", %d, %s);' % (n, t, "true" if term else "false") for n, t, term in FRAMES)
     open(dump_path, "w").write(DUMP_TMPL.replace("VERIF_U6_BODY", body).replace("VERIF_U6_FRAME_CALLS", frame_calls).replace("VERIF_U6_MODEL", model)
@@ -326,15 +326,24 @@ def prepare(repo, tier, seed):
         fh.write('\n#[cfg(all(test, hpbf_verif_dump))]\n#[path = "%s"]\nmod verif_u6_dump;\n' % dump_path)
     env = dict(os.environ, CARGO_NET_OFFLINE="true", RUSTFLAGS="--cfg hpbf_verif_dump",
                CARGO_TARGET_DIR=os.path.join(repo, "target_native"))
-    p = subprocess.run(["cargo", "test", "--offline", "--lib", "verif_u6_", "--", "--nocapture", "--test-threads", "1"],
+    p = subprocess.run(["cargo", "test", "--offline", "--lib", "verif_u6_dump", "--", "--nocapture", "--test-threads", "1"],
                        cwd=repo, env=env, capture_output=True, text=True, timeout=1500)
+    # the CPU run executes generated machine code: its own process, so that a crash of wrong code
+    # cannot take the dump with it
+    pc = subprocess.run(["cargo", "test", "--offline", "--lib", "verif_u6_cpu", "--", "--nocapture", "--test-threads", "1"],
+                        cwd=repo, env=env, capture_output=True, text=True, timeout=1500)
     global CPU_RESULTS
     CPU_RESULTS = {}
-    for mm in re.finditer(r"U6REPLAY (\S+) (OK|MISMATCH.*)", p.stdout):
+    for mm in re.finditer(r"U6REPLAY (\S+) (OK|MISMATCH.*)", pc.stdout):
         if CPU_RESULTS.get(mm.group(1), "OK") == "OK":
             CPU_RESULTS[mm.group(1)] = mm.group(2)
+    started = re.findall(r"U6CPUSTART (\S+)", pc.stdout)
+    if started and started[-1] not in CPU_RESULTS and ("signal" in (pc.stdout + pc.stderr) or pc.returncode < 0):
+        CPU_RESULTS[started[-1]] = "MISMATCH the real machine code crashed the process (%s)" % ((pc.stderr or "").strip().split("\n")[-1][:120])
     got = dict(re.findall(r"U6BYTES (\S+) (\S+)", p.stdout))
     uops = dict(re.findall(r"U6UOPS (\S+) (.*)", p.stdout))
+    global UNMODELLED
+    UNMODELLED = {n: got.get(n, "") for n, u in uops.items() if "Unsupported" in u}
     import shutil
     shutil.rmtree(os.path.join(repo, "target_native"), ignore_errors=True)
     frame_align = dict(re.findall(r"U6FRAME (\S+) (\d+)", p.stdout))
@@ -611,6 +620,9 @@ fn verif_u6_replay() {
 """
 
 
+UNMODELLED = {}
+
+
 def post_process(harness_results):
     """CPU conformance of the trusted x86 specification: an instance the specification accepts
     (Kani discharged) but whose REAL machine code computes a wrong value on the CPU means the
@@ -618,6 +630,12 @@ def post_process(harness_results):
     for h in harness_results:
         short = h["name"].split("::")[-1]
         cpu = CPU_RESULTS.get(short)
+        if short in UNMODELLED and h["status"] == "failed" and (cpu is None or cpu == "OK"):
+            # the emitted bytes contain an encoding the decoder does not model: a limit of the x86
+            # subset specification, not a verdict about hpbf -- unless the real machine code is wrong
+            h["status"] = "undecided"
+            h["reason"] = ("emitted code uses an encoding outside the modelled x86-64 subset (bytes %s); %s"
+                           % (UNMODELLED[short][:80], "the real machine code gave the bc_step result on the built-in operand sets" if cpu == "OK" else "no CPU run for this kind of instance"))
         if cpu is not None:
             h["cpu_run"] = cpu[:160]
             if h["status"] == "discharged" and cpu != "OK":
